@@ -152,6 +152,7 @@ func (s *storageDeferredCreation) GetAfterAddSeq(ctx context.Context, addSeq uin
 }
 
 func (s *storageDeferredCreation) createStorageAndDoInTx(ctx context.Context, proc func(ctx context.Context) error) (err error) {
+	verifBeforeCreateTx(s.id)
 	tx, err := s.store.WriteTx(ctx)
 	if err != nil {
 		return fmt.Errorf("write tx: %w", err)
